@@ -126,20 +126,22 @@ Theorem tile_served_is_permitted :
   forall key n r lim, authorize_tile key n (Some r) = T_ok lim -> permitted key r n = true.
 Proof. exact authorize_tile_ok_permitted. Qed.
 
-(* A tile whose bbox neither lies in nor intersects the geometry the request is limited to is answered with the
-   empty tile and the tile manager is never asked (no upstream request). *)
+(* The geometries a tile request is limited to are given as a list, all of them apply (the coverage is their
+   intersection, util/coverage.py load_limited_to_all); cont / inter / pt_in are the predicates of that
+   intersection.  A tile whose bbox neither lies in nor intersects it is answered with the empty tile and the tile
+   manager is never asked (no upstream request). *)
 Theorem tile_outside_empty :
-  forall lname cb cont inter g,
-    authorize_tile Ft_tile lname cb = T_ok (Some g) -> cont g = false -> inter g = false ->
+  forall lname cb cont inter gs,
+    authorize_tile Ft_tile lname cb = T_ok gs -> gs <> [] -> cont gs = false -> inter gs = false ->
     tile_render lname cb cont inter = TO_empty /\ tile_loads (tile_render lname cb cont inter) = false.
 Proof. exact tile_outside_empty_l. Qed.
 
-(* A tile that intersects the geometry without lying in it is masked with that geometry: pixels outside the
+(* A tile that intersects the permitted area without lying in it is masked with it: pixels outside the
    mask are (255,255,255,0), opaque pixels inside keep their value. *)
 Theorem tile_partial_masked :
-  forall lname cb cont inter g,
-    authorize_tile Ft_tile lname cb = T_ok (Some g) -> cont g = false -> inter g = true ->
-    tile_render lname cb cont inter = TO_masked g.
+  forall lname cb cont inter gs,
+    authorize_tile Ft_tile lname cb = T_ok gs -> gs <> [] -> cont gs = false -> inter gs = true ->
+    tile_render lname cb cont inter = TO_masked gs.
 Proof. exact tile_partial_masked_l. Qed.
 
 Theorem tile_masked_pixel_outside :
@@ -150,23 +152,25 @@ Theorem tile_masked_pixel_inside :
   forall mode s, px_ok s -> px_a s = 255 -> tile_masked_px mode s false = s.
 Proof. exact tile_masked_inside. Qed.
 
-(* Which geometry: the global limited_to is applied when the layer entry has none of its own.
-   _partial: with both, the tile services use only the layer's (tile_global_limit_ignored_refuted). *)
-Theorem tile_global_limit_honoured_partial :
-  forall key n r lim g,
-    authorize_tile key n (Some r) = T_ok lim -> r_kind r = A_partial -> r_lim r = Some g ->
-    (forall p, assoc n (r_layers r) = Some p -> p_lim p = None) ->
-    lim = Some g.
-Proof. exact tile_global_limit_partial. Qed.
+(* Which geometries: the global limited_to always applies (TMS, KML, WMTS tiles and WMTS feature info) ... *)
+Theorem tile_global_limit_honoured :
+  forall key n r lims g,
+    authorize_tile key n (Some r) = T_ok lims -> r_kind r = A_partial -> r_lim r = Some g -> In g lims.
+Proof. exact tile_global_limit. Qed.
 
-(* finding: a tile completely outside the global geometry (5) is served in full because the layer entry has its
-   own limited_to (7) *)
-Theorem tile_global_limit_ignored_refuted :
-  exists r n g g' cont inter, g <> g' /\ r_kind r = A_partial /\ r_lim r = Some g /\
-    authorize_tile Ft_tile n (Some r) = T_ok (Some g') /\
-    cont g = false /\ inter g = false /\
-    tile_render n (Some r) cont inter = TO_full.
-Proof. exact tile_global_limit_refuted. Qed.
+(* ... and so does the limited_to of the layer entry ... *)
+Theorem tile_layer_limit_honoured :
+  forall key n r lims p g,
+    authorize_tile key n (Some r) = T_ok lims -> r_kind r = A_partial ->
+    assoc n (r_layers r) = Some p -> p_lim p = Some g -> In g lims.
+Proof. exact tile_layer_limit. Qed.
+
+(* ... and nothing else *)
+Theorem tile_limits_come_from_callback :
+  forall key n r lims g,
+    authorize_tile key n (Some r) = T_ok lims -> In g lims ->
+    r_lim r = Some g \/ exists p, assoc n (r_layers r) = Some p /\ p_lim p = Some g.
+Proof. exact tile_limits_from_callback. Qed.
 
 (* Feature info (WMS): every info source that is queried belongs to a layer permitted for 'featureinfo'; if that
    layer is limited to g the query point lies in g; if the request is limited globally the point lies in the
@@ -182,8 +186,8 @@ Proof. exact wms_fi_entry. Qed.
 
 (* Feature info (WMTS) *)
 Theorem wmts_featureinfo_gate :
-  forall n infos cb pt_in g,
-    authorize_tile Ft_fi n cb = T_ok (Some g) -> pt_in g = false -> infos <> [] ->
+  forall n infos cb pt_in gs,
+    authorize_tile Ft_fi n cb = T_ok gs -> gs <> [] -> pt_in gs = false -> infos <> [] ->
     wmts_featureinfo n infos cb pt_in = FI_ok [].
 Proof. exact wmts_fi_gate. Qed.
 
